@@ -611,6 +611,31 @@ def inject_failure(rng, cell, kind):
     return {('crash' if kind == 'parse_eof' else 'bad'): text}, pos
 
 
+SWEEP_KINDS = ['failwith', 'illtyped_car', 'underflow', 'mutez_overflow', 'bad_literal', 'illtyped_add', 'invalid_type', 'commit_bad']
+
+
+def position_sweep(rng, cells, limit):
+    """failures at *every* instruction position of one cell: for a cell of n instructions, n+1 sessions in which the
+    cell is cut at position p and continued by a failing instruction (the kinds rotate)"""
+    cand = [k for k, c in enumerate(cells) if 'code' in c and len(c['code']) >= 2]
+    if not cand:
+        return []
+    # prefer cells that touch the context
+    touching = [k for k in cand if any(i[0] in ('EMPTY_BIG_MAP', 'BEGIN', 'COMMIT', 'RUN', 'BIG_MAP_DIFF', 'RESET', 'storage', 'parameter', 'code')
+                                       for i in cells[k]['code'])]
+    k = rng.choice(touching or cand)
+    code = cells[k]['code']
+    out = []
+    start = rng.randrange(len(SWEEP_KINDS))
+    for pos in range(len(code) + 1):
+        kind = SWEEP_KINDS[(start + pos) % len(SWEEP_KINDS)]
+        cut = {'code': code[:pos] + failing(rng, kind), 'braces': cells[k].get('braces', False)}
+        out.append((cells[:k] + [cut] + cells[k + 1:], [f'sweep_{kind}@{min(pos, 4)}']))
+        if len(out) >= limit:
+            break
+    return out
+
+
 def live_view(interp):
     st = []
     for x in interp.stack.items:
@@ -732,9 +757,13 @@ FP_MUL = 6364136223846793005
 
 
 def fingerprint(b: bytes) -> int:
-    acc = 0
-    for x in b:
-        acc = (acc * FP_MUL + x + 1) & FP_MASK
+    acc = len(b)
+    n = len(b) - len(b) % 8
+    ws = [int.from_bytes(b[i:i + 8], 'big') for i in range(0, n, 8)]
+    if len(b) % 8:
+        ws.append(int.from_bytes(b'\x01' + b[n:], 'big'))
+    for w in ws:
+        acc = (acc * FP_MUL + w + 1) & FP_MASK
     return acc
 
 
@@ -800,12 +829,19 @@ def run(ctx: lib.Ctx) -> None:
         sessions.append((cells, ['corpus']))
     for cells in HAND:
         sessions.append((cells, ['hand']))
-    nsess = ctx.n(100, 1500)
+    nsess = ctx.n(80, 1100)
     maxlen = ctx.n(8, 14)
     for _ in range(nsess):
         n = ctx.rng.randrange(3, maxlen + 1)
         cells, kinds = gen_session(ctx.rng, n, ctx.rng.choice([0.2, 0.35, 0.5]))
         sessions.append((cells, kinds))
+
+    # failures at every instruction position of one cell (hand-written sessions always, generated ones as the tier allows)
+    swept = []
+    for cells, kinds in sessions[:len(HAND) + ctx.corpus_cases + ctx.n(6, 100)]:
+        swept += position_sweep(ctx.rng, cells, ctx.n(5, 10))
+    sessions += swept
+    ctx.extra['position_sweep_sessions'] = len(swept)
 
     cases, meta = [], []
     reported = 0
